@@ -16,6 +16,7 @@ Only property theorems (and non-vacuity examples) live here.
 -/
 import Ampverif.Lemmas.C02Regroup
 import Ampverif.Lemmas.C02Sym
+import Ampverif.Lemmas.C02Memo
 
 namespace Ampverif.Props.C02
 open Ampverif.Model.C03 Ampverif.Model.C02
@@ -111,6 +112,106 @@ theorem C02_cell_total (ι : Interp R) (v : Variant) (cfg : Config) (m : Mapping
     ((cellWrites v true cfg m sel c).map fun w => if w.idx = h then denTerms ι w.terms else 0).sum
       = denTerms ι (((graphsOf c).filter fun g => g.outer = h).map (Transition.term v cfg m sel)) := by
   rw [sum_cellWrites, denTerms_graphs_filter]
+
+/-! ### the angles of a node belong to the graph's own boost chain (round 5) -/
+
+/-- **C02 (angles of a node).** For every graph `g` (any topology, any number of final states) and
+every node `n`: the D-function the builder writes for the node, and the variable set its lineshape is
+built with, carry the helicity angles named after the boost chain of the node's first child IN `g`
+(`phi_2^23` below the initial state, `phi_2^23,023` below (023), …) and the invariant masses of `g`'s
+own edges — whatever other graph of the reaction contains a node with the same edge ids, particles,
+helicities and interaction. -/
+theorem C02_node_angles (cfg : Config) (sel : List DecayKey) (g : Transition) (n : Nat) :
+    (g.nodeFactor cfg sel n).d.phi = "phi" ++ g.boostSuffix (g.decay n).2.1
+    ∧ (g.nodeFactor cfg sel n).d.theta = "theta" ++ g.boostSuffix (g.decay n).2.1
+    ∧ ∀ a, (g.nodeFactor cfg sel n).dyn = some a →
+        a.phi = "phi" ++ g.boostSuffix (g.decay n).2.1 ∧ a.theta = "theta" ++ g.boostSuffix (g.decay n).2.1
+        ∧ a.mParent = g.massName (g.decay n).1 ∧ a.m1 = g.massName (g.decay n).2.1
+        ∧ a.m2 = g.massName (g.decay n).2.2 := by
+  rcases h : g.decay n with ⟨p, c1, c2⟩
+  refine ⟨?_, ?_, ?_⟩
+  · simp [Transition.nodeFactor, h]
+  · simp [Transition.nodeFactor, h]
+  · intro a ha
+    simp only [Transition.nodeFactor, h, Transition.dynFactor] at ha
+    split at ha
+    · obtain ⟨b, _, hb⟩ := Option.map_eq_some_iff.mp ha
+      subst hb
+      simp [Transition.dynArgs, h]
+    · cases ha
+
+/-- **C02 (when a per-node key is enough).** On any list of graphs on which equal `TwoBodyDecay`s
+have equal node factors (`keyDeterminesFactor`, decidable; true e.g. for three-body reactions without
+identical particles, where the edge ids of a node fix its boost chain), formulating every node once
+per key gives exactly the library's terms — and `C02_witness_shared_subdecay` shows that the
+condition fails, and the terms differ, as soon as a sub-decay sits below different ancestors. -/
+theorem C02_memo_harmless (v : Variant) (cfg : Config) (m : Mapping) (sel : List DecayKey) (gs : List Transition)
+    (h : keyDeterminesFactor cfg sel gs = true) :
+    termsMemo v cfg m sel gs [] = termsOwn v cfg m sel gs :=
+  Ampverif.Lemmas.C02Memo.terms_memo h gs [] (fun _ hg => hg) (fun _ _ hm => nomatch hm)
+
+namespace Shared
+
+def finals : List (Int × EState) :=
+  [(0, ⟨"pi+", "\\pi^{+}", 0, 0⟩), (1, ⟨"pi-", "\\pi^{-}", 0, 0⟩), (2, ⟨"pi0", "\\pi^{0}", 0, 0⟩),
+   (3, ⟨"gamma", "\\gamma", 2, 2⟩)]
+
+def omega : EState := ⟨"omega(782)", "\\omega(782)", 2, 2⟩
+
+/-- J/ψ → f₀(980) [π⁺ π⁻] ω [π⁰ γ]: ω is edge 5 → (2, 3) below the initial state. -/
+def tA : Transition :=
+  { nodes := [0, 1, 2]
+    edges := [⟨-1, none, some 0⟩, ⟨4, some 0, some 1⟩, ⟨5, some 0, some 2⟩, ⟨0, some 1, none⟩, ⟨1, some 1, none⟩,
+              ⟨2, some 2, none⟩, ⟨3, some 2, none⟩]
+    states := (-1, ⟨"J/psi(1S)", "J/\\psi(1S)", 2, 2⟩) :: (4, ⟨"f(0)(980)", "f_{0}(980)", 0, 0⟩) :: (5, omega) :: finals
+    inters := [(0, ⟨none, none⟩), (1, ⟨none, none⟩), (2, ⟨none, none⟩)] }
+
+/-- J/ψ → π⁻ b₁(1235)⁺ [π⁺ ω [π⁰ γ]]: the same ω node, edge 5 → (2, 3), below (023). -/
+def tB : Transition :=
+  { nodes := [0, 1, 2]
+    edges := [⟨-1, none, some 0⟩, ⟨1, some 0, none⟩, ⟨4, some 0, some 1⟩, ⟨0, some 1, none⟩, ⟨5, some 1, some 2⟩,
+              ⟨2, some 2, none⟩, ⟨3, some 2, none⟩]
+    states := (-1, ⟨"J/psi(1S)", "J/\\psi(1S)", 2, 2⟩) :: (4, ⟨"b(1)(1235)+", "b_{1}(1235)^{+}", 2, 2⟩) :: (5, omega) :: finals
+    inters := [(0, ⟨none, none⟩), (1, ⟨none, none⟩), (2, ⟨none, none⟩)] }
+
+def cfg : Config := ⟨false, false, ⟨false, true, false⟩, [("omega(782)", "bw")]⟩
+def ts : List Transition := [tA, tB]
+def v : Variant := ⟨true, true⟩
+def m : Mapping := registerAll cfg.flags (ts.map Transition.chain)
+def sel : List DecayKey := selectorKeys ts
+
+end Shared
+
+open Shared in
+/-- Four final states, two topologies, the same sub-decay below different ancestors: the two ω nodes
+are EQUAL as `TwoBodyDecay`s (edge ids, particles, helicities, interaction) but their factors differ
+(angles and lineshape variables of the graph's own boost chain), so a per-node key without the
+topology does not determine the factor.  The library's skeleton agrees with the formula on this
+reaction (both topologies interfere in one outer configuration); a builder memoising node factors by
+`TwoBodyDecay` does not: the topology formulated first wins, in either order. -/
+theorem C02_witness_shared_subdecay :
+    tA.decayKey 2 = tB.decayKey 2
+    ∧ (tA.nodeFactor cfg sel 2).d = ⟨2, 2, -2, "phi_2^23", "theta_2^23"⟩
+    ∧ (tB.nodeFactor cfg sel 2).d = ⟨2, 2, -2, "phi_2^23,023", "theta_2^23,023"⟩
+    ∧ (tA.nodeFactor cfg sel 2).dyn = some ⟨"bw", "omega(782)", "m_23", "m_2", "m_3", some 1, "phi_2^23", "theta_2^23"⟩
+    ∧ (tB.nodeFactor cfg sel 2).dyn = some ⟨"bw", "omega(782)", "m_23", "m_2", "m_3", some 1, "phi_2^23,023", "theta_2^23,023"⟩
+    ∧ keyDeterminesFactor cfg sel (visitedGraphs ts) = false
+    ∧ wellFormed ts = true
+    ∧ (impl v true cfg ts).bases = ["A^01,23", "A^023,23"]
+    ∧ skeletonsAgree (impl v true cfg ts) (spec v cfg ts) = true
+    ∧ decide (termsMemo v cfg m sel (visitedGraphs ts) [] = termsOwn v cfg m sel (visitedGraphs ts)) = false
+    ∧ decide (termsMemo v cfg m sel (visitedGraphs ts.reverse) [] = termsOwn v cfg m sel (visitedGraphs ts.reverse)) = false
+    ∧ ((termsMemo v cfg m sel (visitedGraphs ts) []).map fun t => t.nodes.map (·.d.phi))
+        = [["phi_01", "phi_0^01", "phi_2^23"], ["phi_023", "phi_0^023", "phi_2^23"]] := by
+  decide +kernel
+
+open Shared in
+/-- Non-vacuity of `C02_memo_harmless`: its hypothesis holds on each topology of the witness reaction
+alone (3 nodes each) and fails on the two together. -/
+example :
+    keyDeterminesFactor cfg sel (visitedGraphs [tA]) = true ∧ keyDeterminesFactor cfg sel (visitedGraphs [tB]) = true
+    ∧ (visitedGraphs ts).length = 2 ∧ keyDeterminesFactor cfg sel (visitedGraphs ts) = false := by
+  decide +kernel
 
 /-! ### witness for the builder up to 043d8fb (`own = false`) -/
 
